@@ -44,12 +44,12 @@
 #endif
 #ifdef PCL_FIRST
 #define PCL_INV_FIRST __CPROVER_loop_invariant((pos == 0) ==> ((HL.c0_set == 0) & (HL.v0_set == 0))) \
-  __CPROVER_loop_invariant((pos > 0) ==> ((HL.c0_set != 0) & (HL.v0_set != 0) & (HL.c0 < pos) & (HL.v0 == result)))
+  __CPROVER_loop_invariant((pos > 0) ==> ((HL.c0_set != 0) & (HL.v0_set != 0) & (HL.c0 < pos) & (HL.v0 == result) & (RDQ(v, HL.c0 < pos ? HL.c0 : 0) == (char)44)))
 #else
 #define PCL_INV_FIRST
 #endif
 #define IORA_LOOP_parseContentLength_1 IORA_LC( \
-  __CPROVER_assigns(pos, result, have, iora_exc, HL) \
+  __CPROVER_assigns(pos, result, have, iora_exc, HL, HT) \
   __CPROVER_loop_invariant(iora_exc == EXC_NONE) \
   __CPROVER_loop_invariant(pos <= v.n) \
   __CPROVER_loop_invariant(HM_CONTENT(SEGSTART(v, pos <= v.n ? pos : 0))) \
@@ -62,20 +62,57 @@
 #define TE_LAST_OK(q) (ELEM_SHAPE(q, HL.lt_s, HL.lt_a, SAT(HL.lt_a) + SAT(HL.lt_n), HL.lt_end) & (HL.lt_s <= HM_MAXLEN) & (HL.lt_n <= HM_MAXLEN) & SEGSTART(q, SAT(HL.lt_s)) & SEGEND(q, SAT(HL.lt_end)) \
     & ELEM_BYTES(q, HL.lt_s, HL.lt_a, SAT(HL.lt_a) + SAT(HL.lt_n), HL.lt_end, GQ) & ELEM_TOKEN(q, HL.lt_a, SAT(HL.lt_a) + SAT(HL.lt_n)))
 #define TE_TAIL_BLANK(q, upto) IMPB((((HL.has_last != 0) ? HL.lt_end : 0) <= GQ) & (GQ < (upto)), HM_OWS(RDQ(q, GQ)) | (RDQ(q, GQ) == (char)44))
-#ifdef TE_CONTENT
-#define TE_INV_CONTENT \
-  __CPROVER_loop_invariant((HL.has_last != 0) ==> TE_LAST_OK(v)) \
-  __CPROVER_loop_invariant(TE_TAIL_BLANK(v, pos))
+#ifdef TE_TOKEN
+#define TE_INV_TOKEN __CPROVER_loop_invariant((HL.has_last != 0) ==> TE_LAST_OK(v))
 #else
-#define TE_INV_CONTENT
+#define TE_INV_TOKEN
+#endif
+#ifdef TE_TAIL
+#define TE_INV_TAIL __CPROVER_loop_invariant(TE_TAIL_BLANK(v, pos))
+#else
+#define TE_INV_TAIL
 #endif
 #ifndef TE_PTR_EQ
 #define TE_PTR_EQ (lastToken.p == v.p + HL.lt_a)
 #endif
 #define IORA_LOOP_transferEncodingFinalIsChunked_1 IORA_LC( \
-  __CPROVER_assigns(pos, lastToken, HL) \
+  __CPROVER_assigns(pos, lastToken, HL, HT) \
   __CPROVER_loop_invariant(pos <= v.n) \
   __CPROVER_loop_invariant(HM_CONTENT(SEGSTART(v, pos <= v.n ? pos : 0))) \
   __CPROVER_loop_invariant((HL.has_last != 0) ? (TE_PTR_EQ & (lastToken.n == HL.lt_n) & (HL.lt_n >= 1) & (HL.lt_a <= v.n) & (HL.lt_n <= v.n - HL.lt_a) & (HL.lt_end < pos)) : (lastToken.n == 0)) \
-  TE_INV_CONTENT \
+  TE_INV_TOKEN TE_INV_TAIL \
   __CPROVER_decreases(v.n - pos))
+
+/* ---- parseHeaderBlock: the header-line loop. A line starts right after a CRLF (RFC 9112 2.1/5); the status line is line 0 ---- */
+#define CRLF_ATQ(q, i) ((RDQ(q, i) == (char)13) & (RDQ(q, (i) + 1) == (char)10))
+#define LINESTART(q, s) (((s) >= 2) & ((s) <= HM_MAXLEN) & CRLF_ATQ(q, ((s) >= 2) & ((s) <= HM_MAXLEN) ? (s) - 2 : 0))
+/* the line at s is a Content-Length field line in the RFC 9112 5 form `field-name ":"` (no whitespace before the colon), any letter case */
+#define CI_CL(q, a) (CI_CH(RDQ(q, a), 99) & CI_CH(RDQ(q, (a) + 1), 111) & CI_CH(RDQ(q, (a) + 2), 110) & CI_CH(RDQ(q, (a) + 3), 116) & CI_CH(RDQ(q, (a) + 4), 101) & CI_CH(RDQ(q, (a) + 5), 110) \
+    & CI_CH(RDQ(q, (a) + 6), 116) & (RDQ(q, (a) + 7) == (char)45) & CI_CH(RDQ(q, (a) + 8), 108) & CI_CH(RDQ(q, (a) + 9), 101) & CI_CH(RDQ(q, (a) + 10), 110) & CI_CH(RDQ(q, (a) + 11), 103) \
+    & CI_CH(RDQ(q, (a) + 12), 116) & CI_CH(RDQ(q, (a) + 13), 104))
+#define CLLINE(q, s) (((s) <= HM_MAXLEN) & (SAT(s) + 15 <= (q).n) & CI_CL(q, SAT(s)) & (RDQ(q, SAT(s) + 14) == (char)58))
+/* two ranges of q hold the same bytes (length, and the byte at the arbitrary offset GK) */
+#define SVEQ_AT(q, a1, n1, a2, n2) (((n1) == (n2)) & IMPB(GK < (n1), RDQ(q, SAT(a1) + (GK < (n1) ? GK : 0)) == RDQ(q, SAT(a2) + (GK < (n1) ? GK : 0))))
+#define MAPCL ((*resp).headers)
+#ifdef PHB_OBS
+#define PHB_INV_OBS __CPROVER_loop_invariant(((GS < pos) & LINESTART(hs, GS) & (!CRLF_ATQ(hs, GS < pos ? GS : 0))) ==> !HM_OWS(RDQ(hs, GS < pos ? GS : 0)))
+#else
+#define PHB_INV_OBS
+#endif
+#ifdef PHB_CL
+#define PHB_INV_CL \
+  /* the duplicate detector is in step with the field map: haveCL <=> a Content-Length value is stored, and clValue IS that value */ \
+  __CPROVER_loop_invariant(haveCL == (MAPCL.has_cl != 0)) \
+  __CPROVER_loop_invariant(haveCL ==> ((clValue.n == MAPCL.cl.second.n) & (HB.cl_off <= hs.n) & (clValue.n <= hs.n - HB.cl_off) & ((clValue.n == 0) | (clValue.p == hs.p + HB.cl_off)))) \
+  /* every Content-Length line before pos (arbitrary GS) was seen and its value equals clValue */ \
+  __CPROVER_loop_invariant(((GS < pos) & LINESTART(hs, GS) & CLLINE(hs, GS)) ==> ((HB.seen != 0) & haveCL & (HB.s_va <= hs.n) & (HB.s_vn <= hs.n - HB.s_va) & SVEQ_AT(hs, HB.s_va, HB.s_vn, HB.cl_off, clValue.n)))
+#else
+#define PHB_INV_CL
+#endif
+#define IORA_LOOP_parseHeaderBlock_1 IORA_LC( \
+  __CPROVER_assigns(pos, haveCL, clValue, iora_exc, HT, HB, (*resp).headers) \
+  __CPROVER_loop_invariant(iora_exc == EXC_NONE) \
+  __CPROVER_loop_invariant((pos >= 2) & (pos <= hs.n)) \
+  __CPROVER_loop_invariant(HM_CONTENT((pos == hs.n) | LINESTART(hs, pos))) \
+  PHB_INV_OBS PHB_INV_CL \
+  __CPROVER_decreases(hs.n - pos))
